@@ -25,10 +25,34 @@ WHITE_BOX = ["KdqTreeBatch._test_dist (when present; the public to_plotly_datafr
 
 def scenarios(tier):
     k = 1 if tier == "quick" else 10
-    return [("HDDDM", 160 * k), ("CDBD", 120 * k), ("KdqTreeBatch", 100 * k), ("NNDVI", 90 * k)]
+    return [("HDDDM", 160 * k), ("CDBD", 120 * k), ("KdqTreeBatch", 100 * k), ("NNDVI", 90 * k),
+            ("KdqTreeBatch_big", 10 * k), ("HDDDM_big", 10 * k)]
 
 
 def gen(rng, scenario, tier):
+    if scenario.endswith("_big"):
+        # test batches just beyond typical block sizes (chunked processing must not depend on which rows share a block)
+        name = scenario[:-4]
+        cfg = adapters.sample_cfg(rng, name)
+        if name == "KdqTreeBatch":
+            cfg.update(count_ubound=rng.choice([16, 64]), bootstrap_samples=5)
+        else:
+            cfg["detect_batch"] = 3
+        d = rng.randint(1, 2)
+        sizes = [rng.randint(150, 400)] + [rng.choice([1030, 2050, 4100, 8200]) for _ in range(rng.randint(2, 3))]
+        ev = []
+        mu = 0.0
+        for j, n in enumerate(sizes):
+            if j and rng.random() < 0.5:
+                mu += rng.choice([-0.5, 0.5, 1.0])
+            rows = [[round(rng.gauss(mu, 1), 3) for _ in range(d)] for _ in range(n)]
+            # a sorted test batch: a permutation then changes which rows fall into the same block
+            if rng.random() < 0.5:
+                rows.sort()
+            perm = list(range(n))
+            rng.shuffle(perm)
+            ev.append([rows, perm, np_seed(rng)])
+        return {"det": name, "cfg": cfg, "events": ev, "equal_sizes": False}
     name = scenario
     cfg = adapters.sample_cfg(rng, name)
     if name in ("HDDDM", "CDBD"):
